@@ -62,11 +62,14 @@ def _standin(rep, tier, seed, only_search=False):
     evals, distinct, samples = 0, set(), []
     n = 120 if tier == "quick" else 3000
     for it in range(n):
-        lo, hi = rng.choice([(0, 4), (-6, -1), (-3, 3), (0, 4e3), (-1e-3, 1e-3)])
+        lo, hi = rng.choice([(0, 4), (-6, -1), (-3, 3), (0, 4e3), (-1e-3, 1e-3), (0, 4e-9), (1e5, 1e5 + 4)])
         P1 = _rand(rng, rng.randint(0, 6), lo, hi)
         P2 = _rand(rng, rng.randint(0, 6), lo, hi)
         P3 = _rand(rng, rng.randint(0, 5), lo, hi)
-        M = rng.choice([1, 2, 7, 50])
+        M = rng.choice([1, 2, 7, 50, rng.randint(1, 130), rng.randint(40, 130)])
+        if it % 3 == 0 and P1:
+            # nearly equal diagrams of the same shape (the distance is small but not zero)
+            P2 = [[a + (hi - lo) * 1e-7 * rng.uniform(0.5, 1), b + (hi - lo) * 2e-7] for a, b in P1]
         ok = _case(rep, P1, P2, M, "value")
         evals += 1
         distinct.add((len(P1), len(P2), M, lo, hi))
@@ -103,6 +106,14 @@ def _standin(rep, tier, seed, only_search=False):
             if not ok2:
                 rep.violation("sliced Wasserstein law '%s' fails on %s" % (name, {"PD1": P1, "PD2": P2, "PD3": P3, "M": M, "shift": c}),
                               "sw:law:" + name, {"input": {"PD1": P1, "PD2": P2, "PD3": P3, "M": M, "shift": c}, "observed": d})
+    # every number of directions M = 1..130 (and a few larger) on one fixed pair: the direction schedule must be exactly (1/2 + i/M) pi
+    A0, B0 = [[0.0, 1.5], [0.5, 3.0], [2.0, 2.25]], [[0.25, 2.0], [1.0, 1.75]]
+    for M in list(range(1, 131)) + [196, 200, 257, 500]:
+        ok = _case(rep, A0, B0, M, "M-sweep")
+        evals += 1
+        distinct.add(("M", M))
+        if only_search and not ok:
+            return
     if not only_search:
         rep.bounded("sliced-wasserstein-laws", "random diagrams of 0..6 points in 5 coordinate ranges (incl. negative), M in {1,2,7,50}", evals, len(distinct),
                     "distinct = (sizes, M, range); value vs float64 oracle (tolerance 4e-6*|coords| for the float32 directions), symmetry, zero on reorder, triangle, diagonal points, shift, scale, <= 2 W1",
